@@ -223,6 +223,51 @@ def replay_findings(ctx):
             ctx.notes.append("listed finding %s no longer reproduces" % fid)
 
 
+def refused_write_cases(ctx):
+    """A record the writer REFUSES (packing its values raises) while the application carries on: every record whose write
+    succeeded must still read back, in order and unchanged - in particular when the refused record was the first of its
+    type, or of a type nested in / grouped with later ones.  Returns True when a violation was reported."""
+    from flow.record import GroupedRecord, RecordDescriptor
+    P = RecordDescriptor("refuse/p", [("uint16[]", "ports"), ("string", "s")])
+    Q = RecordDescriptor("refuse/q", [("string", "t")])
+    H = RecordDescriptor("refuse/h", [("record", "r"), ("varint", "k")])
+
+    def good(i):
+        return P(ports=[1, i], s="g%d" % i, _generated=T0)
+
+    def poisoned(i):
+        r = P(ports=[1], s="bad%d" % i, _generated=T0)
+        r.ports.append(70000 + i)          # a raw out-of-range element appended behind the field type's back
+        return r
+    q = lambda i: Q(t="q%d" % i, _generated=T0)   # noqa: E731
+    scenarios = {
+        "first-of-type-refused": [poisoned(0), good(1), good(2)],
+        "refused-between": [good(0), poisoned(1), good(2), q(3)],
+        "refused-nested-first": [H(r=poisoned(0), k=0, _generated=T0), good(1), H(r=good(2), k=2, _generated=T0)],
+        "refused-group-member-first": [GroupedRecord("refuse/g", [q(0), poisoned(1)]), good(2), q(3)],
+        "two-refused": [poisoned(0), poisoned(1), good(2)],
+        "other-type-then-refused-first": [q(0), poisoned(1), good(2), q(3), good(4)],
+    }
+    for name, items in scenarios.items():
+        ctx.count_case(("refused-write", name))
+        data, ok, errors = sc.write_stream_bytes_tolerant(items)
+        if not errors:
+            ctx.notes.append("refused-write scenario %s: no write was refused (the poisoned record was accepted)" % name)
+            continue
+        written = [items[i] for i in ok]
+        try:
+            rb = sc.read_stream_items(data)
+            okeq, a, b = deep_equal(written, rb)
+            problem = None if okeq else "records read back differ from the records whose write succeeded: %s" % first_difference(a, b)
+        except Exception as e:  # noqa
+            problem = "reading back raised %s: %s" % (type(e).__name__, e)
+        if problem:
+            ctx.violation("after a refused write (%s; %s) the application carried on: %s" % (name, errors[0][1][:80], problem),
+                          dict(kind="refused-write", scenario=name, items=[repr(x)[:200] for x in items], refused=errors, problem=problem))
+            return True
+    return False
+
+
 def fresh_process_smoke(ctx):
     """One record of every serialisable field type (plus keyword-named fields, nested and grouped records) written and read
     in a CHILD interpreter that imports only what a user script imports, compared with the same scenario in-process: an
@@ -266,6 +311,8 @@ def search(ctx, reason):
     cases = generate_cases(ctx, 150, check_paths=False)
     if check_property(ctx, cases):
         return True
+    if refused_write_cases(ctx):
+        return True
     # descriptor-registry histories (same-name / identifier-coincident / nested / grouped descriptors): a record decoded
     # with another descriptor is a round-trip failure too
     from vf.props import c03
@@ -298,7 +345,7 @@ def run(ctx):
     if check_property(ctx, cases):
         return
     replay_findings(ctx)
-    if fresh_process_smoke(ctx):
+    if fresh_process_smoke(ctx) or refused_write_cases(ctx):
         return
     # descriptor-registry histories (same-name / identifier-coincident / nested / grouped descriptors on 1-3 writers): a record
     # decoded with another descriptor is a round-trip failure too
